@@ -112,6 +112,40 @@ func ruleC19_1(c *Ctx) {
 			}
 		}
 	}
+	// the search itself runs whenever the position is unusable: the conditions dominating it are range tests of the position
+	var searchCall ssa.Instruction
+	instrsOf(sr, func(in ssa.Instruction) {
+		if call, ok := in.(*ssa.Call); ok {
+			if sc := call.Call.StaticCallee(); sc != nil {
+				n := sc.String()
+				if o := sc.Origin(); o != nil {
+					n = o.String()
+				}
+				if strings.HasPrefix(n, "slices.IndexFunc") || strings.HasPrefix(n, "slices.ContainsFunc") {
+					searchCall = in
+				}
+			}
+		}
+	})
+	if searchCall != nil {
+		for _, dc := range dominatingConds(searchCall.Block()) {
+			b, ok := dc.cond.(*ssa.BinOp)
+			okCond := false
+			if ok {
+				isInt := func(v ssa.Value) bool { return isBasicKind(v.Type(), types.Int) }
+				if isInt(b.X) && isInt(b.Y) {
+					okCond = true
+				}
+				if isNilConst(b.X) || isNilConst(b.Y) {
+					okCond = true // error / nil-slice checks
+				}
+			}
+			if !okCond {
+				c.Fail("C19.1", "append-deduplicated", desc, c.P.InstrPos(searchCall)+": the de-duplicating search runs only under an extra condition (`"+dc.cond.String()+"` at "+c.P.Pos(dc.cond.Pos())+"); for other never-matching variants (e.g. `Vary: Accept-Language, *`) the index still grows with every request")
+				return
+			}
+		}
+	}
 	if dep {
 		c.Pass("C19.1", "append-deduplicated", desc, "search by id at "+where)
 	} else {
